@@ -101,7 +101,7 @@ def chunk_stress(rej_expr, flags, thread, count):
                 rej_expr, json.dumps(names(flags)), run)
 
 
-SITE_KINDS = ["close-error", "close-return", "close-break", "gc", "msgh", "coroutine", "index", "arith", "tostring", "load", "goto-close"]
+SITE_KINDS = ["close-error", "close-return", "close-break", "gc", "msgh", "coroutine", "index", "arith", "tostring", "load", "goto-close", "hook"]
 
 
 def site_prelude(expr, args):
@@ -121,6 +121,7 @@ def chunk_site(expr, args, ctxdef, kind):
         "close-break": "for i = 1, 3 do local x <close> = setmetatable({}, {__close = function() site('close-break') end}) break end return 'fin'",
         "goto-close": "do local x <close> = setmetatable({}, {__close = function() site('goto-close') end}) goto out end ::out:: return 'fin'",
         "gc": "setmetatable({}, {__gc = function() site('gc') end}) return 'fin'",
+        "hook": "local fired = false debug.sethook(function() if fired then return end fired = true site('hook') end, 'c') return 'fin'",
         "msgh": "xpcall(function() error('x') end, function(m) site('msgh') return m end) return 'fin'",
         "coroutine": "local co = coroutine.create(function() site('coroutine') end) coroutine.resume(co) return 'fin'",
         "index": "local _ = setmetatable({}, {__index = function() site('index') end}).k return 'fin'",
@@ -131,7 +132,7 @@ def chunk_site(expr, args, ctxdef, kind):
     return (site_prelude(expr, args) +
             "local ctx, x = runtime.callcontext(%s, function()\n %s\nend)\n"
             "emit('ctx', tostring(ctx), type(x) == 'string' and x or type(x))\n"
-            "collectgarbage() collectgarbage()\nemit('end', runtime.context().flags)\n") % (ctxdef, body)
+            "collectgarbage() collectgarbage()\nlocal _ = math.abs(-1)\ndebug.sethook()\nemit('end', runtime.context().flags)\n") % (ctxdef, body)
 
 
 CORO_SHAPES = {
@@ -145,10 +146,16 @@ CORO_SHAPES = {
     "resumer-exits-callcontext": "runtime.callcontext({}, function() co() end) co()",
     "resumed-from-shallower": "runtime.callcontext({flags=\"cpusafe\"}, function() co() end) co()",
     "resumer-exits-xpcall": "xpcall(co, print) co()",
+    # a coroutine the sandboxed code did not create: suspended inside a pcall BEFORE the flagged context is entered and
+    # resumed inside the body; when it leaves its pcall, PopContext takes the flagged context off the shared stack
+    "foreign-suspended-in-pcall-leaves-it": None,
+    # same, but it yields again without leaving its pcall: nothing is popped
+    "foreign-suspended-in-pcall-stays": None,
 }
 # shapes in which a coroutine is suspended inside an open CallContext frame and its resumer exits a CallContext frame
 # (pcall, xpcall, runtime.callcontext) before resuming it: known finding C08-context-stack-shared-by-coroutines
-CORO_KNOWN_SHAPES = ("resumer-exits-pcall", "resumer-exits-callcontext", "resumed-from-shallower", "resumer-exits-xpcall")
+CORO_KNOWN_SHAPES = ("resumer-exits-pcall", "resumer-exits-callcontext", "resumed-from-shallower", "resumer-exits-xpcall",
+                     "foreign-suspended-in-pcall-leaves-it")
 
 
 def chunk_coro(expr, args, ctxdef, shape):
@@ -161,6 +168,11 @@ def chunk_coro(expr, args, ctxdef, shape):
     if shape == "pcall-inside-coroutine":
         return (pre + "local ctx = runtime.callcontext(%s, function()\n local co = coroutine.wrap(function() pcall(function() site('before') coroutine.yield() site('after') end) end)\n"
                 " pcall(co) site('body') co()\n site('body')\nend)\nemit('ctx', tostring(ctx))\nemit('end', runtime.context().flags)\n") % ctxdef
+    if shape.startswith("foreign-suspended-in-pcall"):
+        inner = "coroutine.yield()" if shape.endswith("leaves-it") else "coroutine.yield() coroutine.yield()"
+        return (pre + "local gen = coroutine.wrap(function() pcall(function() %s end) coroutine.yield() end)\ngen()\n"
+                "local ctx = runtime.callcontext(%s, function()\n site('before')\n gen()\n site('after')\nend)\n"
+                "emit('ctx', tostring(ctx))\nemit('end', runtime.context().flags)\n") % (inner, ctxdef)
     return pre + cobody + CORO_SHAPES[shape].replace("CTXDEF", ctxdef) + "\nemit('end', runtime.context().flags)\n"
 
 
@@ -395,7 +407,7 @@ def run(tier, seed):
             for Feff, cdef in defs:
                 for ti in tis:
                     for kind in SITE_KINDS:
-                        if d["go"] in DANGEROUS and kind == "gc" and "kill" not in cdef:
+                        if d["go"] in DANGEROUS and ((kind == "gc" and "kill" not in cdef) or kind == "hook"):
                             continue   # known finding below: the gate is not in force there, os.exit would end the harness
                         site_cases.append({"d": d, "F": Feff, "ctxdef": cdef, "family": "site", "kind": kind, "ti": ti})
                     for shape in CORO_SHAPES:
@@ -486,6 +498,8 @@ def run(tier, seed):
     k_coro = next((k for k in ck.known if k.get("status") == "open" and k.get("match", {}).get("family") == "coro"), None)
     k_gc = next((k for k in ck.known if k.get("status") == "open" and k.get("match", {}).get("family") == "site" and k["match"].get("kind") == "gc"), None)
 
+    k_hook = next((k for k in ck.known if k.get("status") == "open" and k.get("match", {}).get("family") == "site" and k["match"].get("kind") == "hook"), None)
+
     def eval_site(c, l, src):
         """Predicate: while the body of callcontext(def requiring F) runs - and in every handler that belongs to it -
         runtime.context().flags includes F, functions that have not declared F fail with the gate's error, and the
@@ -524,8 +538,8 @@ def run(tier, seed):
                 fails.append((tag, "expected the error '%s', got %r %r" % (want, ok, msg)))
         expected_sites = {"site": 1, "coro": {"abandoned": 2, "inside-body": 3, "pcall-inside-coroutine": 4}.get(kind, 2)}[fam]
         if f[1] != "ok" or len(sites) < expected_sites:
-            if fam == "site" and kind == "gc" and f[1] == "ok":
-                ck.count("gc-finaliser-did-not-run")
+            if fam == "site" and kind in ("gc", "hook") and f[1] == "ok":
+                ck.count(kind + "-handler-did-not-run")
             else:
                 ck.count("site-family:program-incomplete")
                 if not fails and not (fam == "coro" and kind in CORO_KNOWN_SHAPES):
@@ -546,6 +560,10 @@ def run(tier, seed):
         if fam == "site" and kind == "gc" and k_gc is not None and "kill" not in c["ctxdef"] and all(t in ("gc", "sentinel") for t, _ in fails):
             ck.known_finding(k_gc)
             known_hits[k_gc["id"]] = known_hits.get(k_gc["id"], 0) + 1
+            return
+        if fam == "site" and kind == "hook" and k_hook is not None and all(t in ("hook", "sentinel") for t, _ in fails):
+            ck.known_finding(k_hook)
+            known_hits[k_hook["id"]] = known_hits.get(k_hook["id"], 0) + 1
             return
         rep["failed"] = fails
         rep["events"] = evs
